@@ -351,6 +351,9 @@ def sympy_features(expr):
         f.append('call_on_literal')   # an unevaluated function application without any variable
     if e.has(sympy.zoo, sympy.nan, sympy.oo):
         f.append('degenerate')
+    if any(isinstance(p_.base, sympy.Integer) and any(not a.free_symbols for a in p_.exp.atoms(sympy.Function))
+           for p_ in e.atoms(sympy.Pow)):
+        f.append('integer_literal_to_power_of_literal_call')   # 4 ^ absv(2): integer base, exponent known only at run time
     return f
 
 
@@ -369,7 +372,7 @@ def idx_terms(tier):
          ('mean', ('index_axis', 'M', 1, 0)), ('mean', ('index_axis', 'M', 0, 1)),
          ('vsum', ('index', 'v', 'B')), 'r', '2']
     if tier != 'quick':
-        t += [('index', 'v', 2), ('index', 'v', 3), ('index_2d', 'M', 2, 2), ('maxi', ('index_range', 'v', 2, 5)),
+        t += [('index', 'v', 2), ('index', 'v', 3), ('index_2d', 'M', 2, 2), ('mean', ('index_range', 'v', 2, 5)),
               ('index', ('index', 'M', 1), 2), ('vsum', ('index_2d', 'M', 'B', 1))]
     return t
 
